@@ -141,7 +141,7 @@ proof fn lemma_no_sol_step(a: int, b: int, c: int)
 pub fn egcd(a: T, b: T, c: T) -> (res: Option<(T, T)>)
     requires small(a as int), small(b as int), small(c as int), a != 0 || b != 0,
     ensures match res {
-        Some((x, y)) => a * x + b * y == c
+        Some((x, y)) => a * x + b * y == c && lin(a as int, x as int, b as int, y as int) == c
             && iabs(x as int) <= iabs(c as int) * imax(iabs(b as int), 1) && iabs(y as int) <= iabs(c as int) * imax(iabs(a as int), 1)
             && (a == 0 ==> x == 0),
         None => !solvable(a as int, b as int, c as int),
@@ -185,5 +185,113 @@ pub fn egcd(a: T, b: T, c: T) -> (res: Option<(T, T)>)
     }
     Some((x0 - &((b / &a) * &y0), y0))
 }
+
+pub open spec fn cong(x: int, a: int, m: int) -> bool { (x - a) % m == 0 }
+
+proof fn lemma_sgcd_pos_dvd(a: nat, b: nat)
+    requires a > 0 || b > 0
+    ensures sgcd(a, b) > 0, (a as int) % (sgcd(a, b) as int) == 0, (b as int) % (sgcd(a, b) as int) == 0
+    decreases b
+{
+    if b == 0 { lemma_mod_self_0(a as int); lemma_small_mod(0, a); } else {
+        lemma_mod_bound(a as int, b as int);
+        lemma_sgcd_pos_dvd(b, a % b);
+        let g = sgcd(a, b) as int;
+        lemma_fundamental_div_mod(a as int, b as int);
+        lemma_fundamental_div_mod(b as int, g); lemma_fundamental_div_mod((a % b) as int, g);
+        let q = (a / b) as int; let bq = (b as int) / g; let rq = ((a % b) as int) / g;
+        assert(a == g * (bq * q + rq)) by(nonlinear_arith) requires a == b * q + (a % b), b == g * bq, (a % b) == g * rq;
+        lemma_mod_multiples_basic(bq * q + rq, g);
+        assert(g * (bq * q + rq) == (bq * q + rq) * g) by(nonlinear_arith);
+    }
+}
+proof fn lemma_mod_zero_mul(k: int, m: int)
+    requires m > 0
+    ensures (k * m) % m == 0, (m * k) % m == 0
+{
+    lemma_mod_multiples_basic(k, m);
+    assert(k * m == m * k) by(nonlinear_arith);
+}
+proof fn lemma_mod_zero_add(x: int, y: int, m: int)
+    requires m > 0, x % m == 0, y % m == 0
+    ensures (x + y) % m == 0, (x - y) % m == 0
+{
+    lemma_fundamental_div_mod(x, m); lemma_fundamental_div_mod(y, m);
+    assert(x + y == (x / m + y / m) * m) by(nonlinear_arith) requires x == m * (x / m), y == m * (y / m);
+    assert(x - y == (x / m - y / m) * m) by(nonlinear_arith) requires x == m * (x / m), y == m * (y / m);
+    lemma_mod_zero_mul(x / m + y / m, m); lemma_mod_zero_mul(x / m - y / m, m);
+}
+
+pub fn crt(a1: T, m1: T, a2: T, m2: T) -> (res: Option<T>)
+    requires 1 <= m1 <= 0x10_0000, 1 <= m2 <= 0x10_0000, 0 <= a1 < m1, 0 <= a2 < m2,
+    ensures match res {
+        Some(r) => 0 <= r && r * sgcd(m1 as nat, m2 as nat) < m1 * m2 && r % m1 == a1 && r % m2 == a2,
+        None => forall|x: int| !(cong(x, a1 as int, m1 as int) && cong(x, a2 as int, m2 as int)),
+    },
+{
+    let g = gcd(m1.clone(), m2.clone());
+    proof {
+        lemma_sgcd_pos_dvd(m1 as nat, m2 as nat);
+        // no solution of the congruences if the linear equation is unsolvable
+        if !solvable(m1 as int, -(m2 as int), a2 - a1) {
+            assert forall|x: int| !(cong(x, a1 as int, m1 as int) && cong(x, a2 as int, m2 as int)) by {
+                if cong(x, a1 as int, m1 as int) && cong(x, a2 as int, m2 as int) {
+                    lemma_fundamental_div_mod(x - a1, m1 as int); lemma_fundamental_div_mod(x - a2, m2 as int);
+                    let s = (x - a1) / (m1 as int); let t = (x - a2) / (m2 as int);
+                    assert(lin(m1 as int, s, -(m2 as int), t) == a2 - a1) by(nonlinear_arith) requires x - a1 == m1 * s, x - a2 == m2 * t;
+                }
+            }
+        }
+    }
+    let (x, _) = egcd(m1.clone(), -m2.clone(), a2 - &a1)?;
+    let ghost y = choose_y(m1 as int, m2 as int, x as int, a2 - a1);
+    let ghost m2o = m2 as int;
+    let m2 = m2 / &g;
+    proof {
+        lemma_trunc(m2o, g as int);
+        lemma_fundamental_div_mod(m2o, g as int);
+        assert(m2o >= 0 && g > 0);
+        lemma_div_pos_is_pos(m2o, g as int);
+        assert(m2 * g == m2o) by(nonlinear_arith) requires m2o == g * (m2o / (g as int)), m2 == m2o / (g as int);
+        assert(m2 >= 1) by(nonlinear_arith) requires m2 * g == m2o, m2o >= 1, g >= 1, m2 >= 0;
+        assert(m2 <= m2o) by(nonlinear_arith) requires m2 * g == m2o, g >= 1, m2 >= 0;
+        lemma_trunc(x as int, m2 as int);
+    }
+    let ghost x0 = x as int;
+    let x = (x % &m2 + &m2) % &m2;
+    proof {
+        // x == x0 (mod m2), 0 <= x < m2
+        let t = trem(x0, m2 as int);
+        assert(-(m2 as int) < t < m2);
+        lemma_mod_bound(t + m2, m2 as int);
+        if t + m2 == 0 { lemma_small_mod(0, m2 as nat); }
+        assert(x == (t + m2) % (m2 as int));
+        lemma_fundamental_div_mod(t + m2, m2 as int);
+        let k = (t + m2) / (m2 as int);
+        // x0 - x is a multiple of m2:  x0 = m2*q + t,  t + m2 = m2*k + x
+        let q = tdiv(x0, m2 as int);
+        assert(x0 - x == (m2 as int) * (q + k - 1)) by(nonlinear_arith) requires x0 == m2 * q + t, t + m2 == m2 * k + x;
+        assert(m1 * x <= 0x10_0000 * 0x10_0000) by(nonlinear_arith) requires 0 <= x < m2, m2 <= 0x10_0000, 1 <= m1 <= 0x10_0000;
+        assert(m1 * x >= 0) by(nonlinear_arith) requires 0 <= x, m1 >= 1;
+        // result properties
+        let r = m1 * x + a1;
+        lemma_fundamental_div_mod_converse(r, m1 as int, x as int, a1 as int);
+        assert(m1 * x + a1 == (x as int) * (m1 as int) + a1) by(nonlinear_arith);
+        assert(r * g < m1 * m2o) by(nonlinear_arith) requires r == m1 * x + a1, 0 <= a1 < m1, 0 <= x < m2, m2 * g == m2o, g >= 1;
+        // r == a2 (mod m2o):  m1*x0 - m2o*y == a2 - a1,  x0 - x == m2*(q+k-1),  m1 == g*m1g
+        lemma_fundamental_div_mod(m1 as int, g as int);
+        let m1g = (m1 as int) / (g as int);
+        let j = q + k - 1;
+        assert(r - a2 == m2o * (y - m1g * j)) by(nonlinear_arith)
+            requires r == m1 * x + a1, m1 * x0 + (-m2o) * y == a2 - a1, x0 - x == m2 * j, m1 == g * m1g, m2 * g == m2o;
+        lemma_mod_zero_mul(y - m1g * j, m2o);
+        lemma_fundamental_div_mod(r - a2, m2o);
+        let w = (r - a2) / m2o;
+        assert(r == w * m2o + a2) by(nonlinear_arith) requires r - a2 == m2o * w + 0;
+        lemma_fundamental_div_mod_converse(r, m2o, w, a2 as int);
+    }
+    Some(m1 * &x + &a1)
+}
+pub open spec fn choose_y(m1: int, m2: int, x: int, c: int) -> int { choose|y: int| #[trigger] lin(m1, x, -m2, y) == c }
 } // verus!
 fn main() {}
